@@ -155,11 +155,10 @@ func (p *Program) fieldKey(f *types.Var) string {
 	return owner + "." + f.Name()
 }
 
-var fieldOwnerCache map[*types.Var]string
-
 func (p *Program) fieldOwner(f *types.Var) string {
-	if fieldOwnerCache == nil {
-		fieldOwnerCache = map[*types.Var]string{}
+	if p.fieldOwnerCache == nil {
+		fieldOwnerCache := map[*types.Var]string{}
+		p.fieldOwnerCache = fieldOwnerCache
 		for _, pk := range p.ByPath {
 			if pk.Types == nil {
 				continue
@@ -186,7 +185,7 @@ func (p *Program) fieldOwner(f *types.Var) string {
 			}
 		}
 	}
-	return fieldOwnerCache[f]
+	return p.fieldOwnerCache[f]
 }
 
 // ---------------------------------------------------------------------------
